@@ -690,8 +690,16 @@ class Node:
                         (conn.state != PEER_CLOSED and len(conn.write_buffer) > 0)):
                     w_list.append(conn_socket)
 
-            ready_r, ready_w, _ = select.select(
-                r_list, w_list, [], self.wakeup_interval)
+            try:
+                ready_r, ready_w, _ = select.select(
+                    r_list, w_list, [], self.wakeup_interval)
+            except (ValueError, OSError) as e:
+                # a socket has been closed by another thread after the lists
+                # were built (e.g. a connection thread rejecting a CEA); the
+                # lists are built again on the next turn
+                self.connection_logger.debug(
+                    f"socket set changed while waiting for events: {e}")
+                continue
 
             for rsock in ready_r:
                 if rsock == self.interrupt_read:
